@@ -33,6 +33,8 @@ const (
 	ESC = 100 // htlc module account
 	BLK = 101 // fee collector (blocked as a recipient)
 	T0  = int64(1700000000)
+
+	longRun = 256 // runs of more block boundaries than this carry one time step
 )
 
 // index order = lexicographic order of the names (the model relies on it)
@@ -128,7 +130,7 @@ func gen(r *lib.Rand, tier, stream string, i int) History {
 	maxLock := int64(120)
 	if tier == "thorough" {
 		nsteps = int(r.Range(25, 80))
-		if r.Chance(1, 8) {
+		if r.Chance(1, 16) {
 			maxLock = 34560 // a few histories run to the maximal time lock
 		}
 	}
@@ -171,6 +173,9 @@ func gen(r *lib.Rand, tier, stream string, i int) History {
 
 	advance := func(n int64, dt int64, exact bool) {
 		var dts []int64
+		if n > longRun { // long idle stretches use one time step (printed as CAdvN: coqc cannot parse a 34 560-element list literal)
+			exact = true
+		}
 		for k := int64(0); k < n; k++ {
 			d := dt
 			if !exact {
@@ -681,7 +686,17 @@ func (w *world) apply(st Step) result {
 			w.checkRefundEvents(o)
 			dts = append(dts, hz64(d*1000000))
 		}
-		return result{lib.App("CAdv", lib.L(dts...)), code, "ok", -1, fmt.Sprintf("adv %d blocks -> height %d", len(st.DtsMs), e.Height), ""}
+		term := lib.App("CAdv", lib.L(dts...))
+		if len(st.DtsMs) > longRun {
+			same := true
+			for _, d := range st.DtsMs {
+				same = same && d == st.DtsMs[0]
+			}
+			if same {
+				term = lib.App("CAdvN", lib.Z(int64(len(st.DtsMs))), hz64(st.DtsMs[0]*1000000))
+			}
+		}
+		return result{term, code, "ok", -1, fmt.Sprintf("adv %d blocks -> height %d", len(st.DtsMs), e.Height), ""}
 	case "create":
 		p, ts := w.createPre(st, e.Time)
 		idx := w.intern(p)
